@@ -69,4 +69,4 @@ Qed.
 
 Theorem parse_render_stage2_full : forall cpp e,
   frag2 e = true -> parse cpp (render e) = Some (tree_of e).
-Proof. intros. apply parse_render_stage2; [assumption|apply frag2_not_decl_like; assumption]. Qed.
+Proof. exact parse_render_stage2. Qed.
